@@ -109,7 +109,8 @@ def imageDsOf (v : Json) : Except String ImageDs := do
          rootPos := (← getOpt v "root_pos" ratListOf).getD [], rootOri := (← getOpt v "root_ori" ratListOf).getD [],
          rootPs := (← getOpt v "root_ps" ratListOf).getD [], rootSbs := ← getOpt v "root_sbs" parseRat,
          shared := shared, perFrame := pf, tiledFull := tf, totalOrigin := org,
-         oriSlide := (← getOpt v "ori_slide" ratListOf).getD [] }
+         oriSlide := (← getOpt v "ori_slide" ratListOf).getD [],
+         frameOfReference := ← getOpt v "for_uid" (fun y => y.getStr?) }
 
 def errOrJson {α} (f : α → Json) : Except ErrKind α → Json
   | .ok v => f v
